@@ -1,13 +1,15 @@
 #!/bin/sh
 # tools/run_seeds.sh [seed-id ...]: apply each seeded patch to a scratch copy of /repo's sources and run every registered check on it.
+# Seeds are processed 8 at a time (JOBS=n to change).
 cd /verif || exit 2
 SEEDS=${*:-$(ls seeded)}
-CHECKS=$(ls sa/rules | sed -n 's/^c\([0-9]*\)\.py$/C\1/p')
-for s in $SEEDS; do
-  if grep -q '"retired": true' seeded/$s/meta.json 2>/dev/null; then echo "$s: retired (see meta.json)"; continue; fi
+export CHECKS="$(ls sa/rules | sed -n 's/^c\([0-9]*\)\.py$/C\1/p' | tr '\n' ' ')"
+one() {
+  s=$1
+  if grep -q '"retired": true' seeded/$s/meta.json 2>/dev/null; then echo "$s: retired (see meta.json)"; return; fi
   T=$(mktemp -d /var/tmp/seedrun.XXXXXX)
   cp -r /repo/apischema "$T"/ && cp -r /repo/docs "$T"/
-  if ! (cd "$T" && patch -p1 -s < /verif/seeded/$s/patch.diff); then echo "$s: PATCH FAILED"; rm -rf "$T"; continue; fi
+  if ! (cd "$T" && patch -p1 -s < /verif/seeded/$s/patch.diff >/dev/null 2>&1); then echo "$s: PATCH FAILED"; rm -rf "$T"; return; fi
   HITS=""
   for c in $CHECKS; do
     OUT=$(./check $c --root "$T" --no-write 2>/dev/null); RC=$?
@@ -16,4 +18,6 @@ for s in $SEEDS; do
   done
   echo "$s: ${HITS:- not detected}"
   rm -rf "$T"
-done
+}
+if [ "$1" = "--one" ]; then one "$2"; exit 0; fi
+echo $SEEDS | tr ' ' '\n' | grep -v '^$' | xargs -P ${JOBS:-8} -I{} sh "$0" --one {} | sort
